@@ -80,6 +80,10 @@ impl<'a> Iterator for Params<'a> {
                     ));
                 }
                 self.input = rest;
+            } else if !rest.is_empty() {
+                // new-params-bound flag is clear: no types follow, but the flag byte itself
+                // is not part of the first value
+                self.input = &rest[1..];
             }
         }
 
